@@ -205,6 +205,9 @@ pub fn gen_case(r: &mut Rng, out: &mut String) {
         }
         writeln!(out, "from_lsb0 b0 {} {}", off, h).unwrap();
     } else if r.chance(1, 6) {
+        // a value of the shared catalogue (gen/zoo.rs)
+        super::zoo::zoo_build(r, out, "b0");
+    } else if r.chance(1, 6) {
         // the whole value is decoded: run containers whose runs overlap / repeat (accepted by both decoders), with the sum
         // of the run lengths and the real cardinality on opposite sides of the 4096 limit; or a conformant stream
         let mode = if r.chance(1, 2) { "chk" } else { "unchk" };
